@@ -85,7 +85,7 @@ def _classify_call(call: ast.Call, env: _Env, where: str) -> str:
     if isinstance(f, ast.Attribute):
         recv = f.value
         # os.replace(tmp, dest) / os.unlink(tmp) / os.remove(tmp)
-        if isinstance(recv, ast.Name) and recv.id == 'os':
+        if isinstance(recv, ast.Name) and recv.id in ('os', '_os'):
             args = [_val(a, env, where) for a in call.args]
             if f.attr in ('replace', 'rename') and args == ['TNAME', 'DEST']:
                 return 'REPLACE'
